@@ -158,9 +158,14 @@ func (l *lock) close(sigs [][]byte) [][]byte {
 func cloneData(d *types.TxData) types.TxData {
 	c := types.TxData{Version: d.Version, SerializedSize: d.SerializedSize, TimeRange: d.TimeRange}
 	for _, in := range d.Inputs {
-		sp := in.TypedInput.(*types.SpendInput)
-		c.Inputs = append(c.Inputs, types.NewSpendInput(cloneArgs(sp.Arguments), sp.SourceID, *sp.AssetId, sp.Amount, sp.SourcePosition,
-			append([]byte{}, sp.ControlProgram...), nil))
+		switch sp := in.TypedInput.(type) {
+		case *types.SpendInput:
+			c.Inputs = append(c.Inputs, types.NewSpendInput(cloneArgs(sp.Arguments), sp.SourceID, *sp.AssetId, sp.Amount, sp.SourcePosition,
+				append([]byte{}, sp.ControlProgram...), nil))
+		case *types.VetoInput:
+			c.Inputs = append(c.Inputs, types.NewVetoInput(cloneArgs(sp.Arguments), sp.SourceID, *sp.AssetId, sp.Amount, sp.SourcePosition,
+				append([]byte{}, sp.ControlProgram...), append([]byte{}, sp.Vote...), nil))
+		}
 	}
 	for _, o := range d.Outputs {
 		c.Outputs = append(c.Outputs, types.NewOriginalTxOutput(*o.AssetId, o.Amount, append([]byte{}, o.ControlProgram...), nil))
@@ -176,7 +181,16 @@ func cloneArgs(a [][]byte) [][]byte {
 	return c
 }
 
-func spendOf(d *types.TxData, i int) *types.SpendInput { return d.Inputs[i].TypedInput.(*types.SpendInput) }
+// spendOf: the commitment to the spent output of input i (a spend, or the veto of a vote output).
+func spendOf(d *types.TxData, i int) *types.SpendCommitment {
+	switch in := d.Inputs[i].TypedInput.(type) {
+	case *types.VetoInput:
+		return &in.SpendCommitment
+	case *types.SpendInput:
+		return &in.SpendCommitment
+	}
+	panic("harness: unexpected input type")
+}
 
 func txHex(tx *types.Tx) string {
 	b, err := tx.TxData.MarshalText()
@@ -199,6 +213,7 @@ type spend struct {
 	height uint64
 	tx     *types.Tx  // with the correct witnesses
 	args   [][][]byte // the correct witness of every input
+	vetoes int        // inputs that are vetoes of vote outputs
 }
 
 func randHash(rng *ev.Rand) bc.Hash {
@@ -270,7 +285,13 @@ func newSpend(rng *ev.Rand) (*spend, error) {
 		} else {
 			btmIn += amount
 		}
-		d.Inputs = append(d.Inputs, types.NewSpendInput(nil, randHash(rng), asset, amount, uint64(rng.Intn(4)), l.prog, nil))
+		if asset == *consensus.BTMAssetID && rng.Chance(1, 4) {
+			// the lock guards a vote output: it is spent by a veto input (same program, same witness rules)
+			d.Inputs = append(d.Inputs, types.NewVetoInput(nil, randHash(rng), asset, amount, uint64(rng.Intn(4)), l.prog, rng.Bytes(64), nil))
+			sp.vetoes++
+		} else {
+			d.Inputs = append(d.Inputs, types.NewSpendInput(nil, randHash(rng), asset, amount, uint64(rng.Intn(4)), l.prog, nil))
+		}
 	}
 	fee := uint64(rng.Range(60000000, 70000000)) // >= MaxGasAmount * VMGasRate: gas is never the reason of a rejection
 	rest := btmIn - fee
@@ -820,6 +841,7 @@ func TestC02(t *testing.T) {
 			return
 		}
 		e := &engine{out: c, validate: realValidate, ver: newVerifier(), sp: sp, rng: c.Rand}
+		c.Count("veto_inputs", int64(sp.vetoes))
 		if c.WantSample() {
 			var locks []string
 			for _, l := range sp.locks {
@@ -837,4 +859,5 @@ func TestC02(t *testing.T) {
 		}
 		r.Floor(name, min)
 	}
+	r.Floor("veto_inputs", 50)
 }
